@@ -21,6 +21,6 @@ if [ ! -x $OUT ]; then
   fi
   (cd /repo && $GO test -c -vet=off $FLAGS -modfile=$B/go.mod -overlay=$B/overlay.json -o $OUT ./internal/zzsim/props) >&2 || { echo "build: go test -c failed" >&2; rm -f $OUT; exit 2; }
   # keep only the 3 newest build dirs
-  ls -1dt $V/.build/*/ 2>/dev/null | grep -v '/rt/' | tail -n +11 | xargs -r rm -rf
+  ls -1dt $V/.build/*/ 2>/dev/null | grep -v '/rt/' | tail -n +31 | xargs -r rm -rf
 fi
 echo $B
